@@ -86,7 +86,17 @@ def case_strategy(dev, tier):
         gaps = gap_tables[(nsel // 4 + _mix(salt, 0, 9)) % len(gap_tables)]
         cmds = []
         for i, (g, k, o) in enumerate(rows[:n]):
-            cmds.append([gaps[(g + _mix(salt, i, 1)) % len(gaps)], kinds[(k + _mix(salt, i, 2)) % len(kinds)], o ^ (_mix(salt, i, 3) & ((1 << 25) - 1))])
+            opnd = o ^ (_mix(salt, i, 3) & ((1 << 25) - 1))
+            sel = _mix(salt, i, 10) % 24
+            if sel == 0:
+                opnd = 0                              # boundary operands: all address and bank bits zero ...
+            elif sel == 1:
+                opnd = (1 << 25) - 1                  # ... all ones ...
+            elif sel == 2:
+                opnd &= ~((1 << 18) - 1)              # ... address zero with any bank (mode-register writes of the value 0) ...
+            elif sel == 3:
+                opnd = 1 << (_mix(salt, i, 11) % 25)  # ... a single bit
+            cmds.append([gaps[(g + _mix(salt, i, 1)) % len(gaps)], kinds[(k + _mix(salt, i, 2)) % len(kinds)], opnd])
         return dict(dev=dev, idle=(idle + _mix(salt, 0, 4)) % 3, den=(den + _mix(salt, 0, 5)) % 2,
                     mw=[(m + _mix(salt, i, 6)) % 4 for i, m in enumerate(mw)],
                     junk=[j ^ (_mix(salt, i, 8) & ((1 << 25) - 1)) for i, j in enumerate(junk)], cmds=cmds)
@@ -386,7 +396,7 @@ def run_shard(sh):
         def fails(c):
             try:
                 f2 = quiet(col, evaluate(c)[0])
-            except HarnessError:
+            except Exception:      # a candidate that cannot be evaluated is not a reduction
                 return False
             return any(f["clause"] == clause for f in f2)
         case = ddmin_cmds(case, fails, 45 if tier == "quick" else 120)
